@@ -9,7 +9,6 @@
    Finding F-C18-a (stale `service` in the shared permission frame) is fixed in /repo (053695b + 17a75cd: the
    namespace is replaced per by-name type iteration and before the filter phase); the model transcribes the
    fixed code and no theorem carries a finding hypothesis any more. *)
-From Coq Require Import String.
 From Icv Require Import Base.Tac Perm.PmModel Perm.PmProofs Perm.PmJoins Perm.PmObs Perm.PmOracleProofs Perm.PmFacts.
 Local Open Scope Z_scope.
 
@@ -123,8 +122,8 @@ Theorem C18_source_facts :
   (* the permission frame's namespace is a `new Namespace()` only EvaluateFilter writes to; filter_vars go to the user's frame *)
   pm_guard_ok Facts_c18.f_pm_perm_ns_private /\
   (* the join caches are keyed by object identity resp. type identity; joinAttrs is an ordered set *)
-  pm_text_ok Facts_c18.f_pm_join_cache_key "Object*" /\ pm_text_ok Facts_c18.f_pm_join_type_cache_key "Type*" /\
-  pm_text_ok Facts_c18.f_pm_join_attrs_container "std::set<String>".
+  pm_guard_ok Facts_c18.f_pm_join_cache_by_identity /\ pm_guard_ok Facts_c18.f_pm_join_type_cache_by_identity /\
+  pm_guard_ok Facts_c18.f_pm_join_attrs_sorted.
 Proof. exact pm_source_facts. Qed.
 Print Assumptions C18_source_facts.
 
